@@ -202,7 +202,24 @@ class C16(common.Prop):
                 raw["idx"] = [int(i) for i in (idx.numpy().tolist() if hasattr(idx, "numpy") else idx)]
             else:
                 hdr = self.make_header(case)
-                pose = self.Pose(hdr, body)
+                if case["seed"] % 2 == 0:
+                    pose = self.Pose(hdr, body)
+                else:
+                    # the Pose object has been used before with another body (reversed frames, another rate): the call under
+                    # test must act on the body the pose holds NOW
+                    warm = self.make_body(be, fps + 1.0, data[::-1].copy(), valid[::-1].copy(), conf[::-1].copy())
+                    pose = self.Pose(hdr, warm)
+                    try:
+                        if op == "pose_step":
+                            pose.slice_step(case["by"])
+                        elif case["kind"] == "uniform":
+                            pose.frame_dropout_uniform(dropout_min=f64(case["a"]), dropout_max=f64(case["b"]))
+                        else:
+                            pose.frame_dropout_normal(dropout_mean=f64(case["a"]), dropout_std=f64(case["b"]))
+                    except Exception:
+                        pass
+                    pose.body = body
+                    self.seed_all(case["seed"])
                 if op == "pose_step":
                     rp = pose.slice_step(case["by"])
                 else:
